@@ -6,6 +6,7 @@ the rendered script.
 """
 from __future__ import annotations
 
+import copy
 import random
 
 from .. import factlab as fl, filtgen
@@ -161,9 +162,14 @@ def evaluate(d):
     f, g = getattr(d, "_names", None) or ("f", "g")
     pre = getattr(d, "_prefixes", None) or ()
     fs = fl.FiltersSet("t", *pre)
-    r = fl.call(fs.addfilter, f, list(d.conditions), list(d.actions), d.matchtype)
+    # the caller's own objects go in (a deep copy, so that the expectation stays intact) ...
+    mine_c, mine_a = copy.deepcopy(list(d.conditions)), copy.deepcopy(list(d.actions))
+    r = fl.call(fs.addfilter, f, mine_c, mine_a, d.matchtype)
     if r[0] != "ret":
         return False, [], r
+    # ... and are the caller's to re-use afterwards: emptied and refilled in place here
+    _scribble(mine_c)
+    _scribble(mine_a)
     res = []
     for what, how, detail in compare(d, read(fs, f)):
         res.append(("original", what, how, detail))
